@@ -12,6 +12,7 @@ N7  `x = self.a.b` / `push = stack.append` bound once at function top level, att
                                                     ->  the attribute expression is substituted for x
 N11 `for x in chain((a,), it): body` -> body[x:=a]; for x in it: body
 N16 `x = x + e` -> `x += e`
+N19 `if c: ...return else: rest` -> `if c: ...return; rest`;  N20 `c = <test>; if c:` (c read nowhere else) -> test inlined
 N18 `x = <expr>; return x` (x read nowhere else) -> `return <expr>`
 N15 a local only bound to k-tuple displays and only read as `*x` / `x[const]` -> k locals
 N14 `for x in iter(f, sentinel): body` -> `while True: x = f(); if x is sentinel: break; body`
@@ -377,6 +378,50 @@ class Normalizer:
 
     # ------------------------------------------------------------------ N1, N2, N4, N5 on statement lists
     def rewrite_blocks(self, tree):
+        # N20: `c = <test>` immediately followed by `if c:` / `if not c:`, c read nowhere else -> the test is inlined
+        for fn in [f for f in ast.walk(tree) if isinstance(f, (ast.FunctionDef, ast.AsyncFunctionDef))]:
+            names = {}
+            for x in ast.walk(fn):
+                if isinstance(x, ast.Name):
+                    names.setdefault(x.id, []).append(x)
+            for n in ast.walk(fn):
+                for field in ('body', 'orelse', 'finalbody'):
+                    seq = getattr(n, field, None)
+                    if not (isinstance(seq, list) and len(seq) >= 2 and isinstance(seq[0], ast.stmt)):
+                        continue
+                    i = 0
+                    while i < len(seq) - 1:
+                        a, nx = seq[i], seq[i + 1]
+                        if isinstance(a, ast.Assign) and len(a.targets) == 1 and isinstance(a.targets[0], ast.Name) and isinstance(nx, ast.If) \
+                                and isinstance(a.value, (ast.Compare, ast.Call, ast.BoolOp, ast.UnaryOp)) and len(names.get(a.targets[0].id, [])) == 2 \
+                                and not (isinstance(a.value, ast.Call) and isinstance(a.value.func, ast.Attribute) and a.value.func.attr in ('read', 'get', 'pop', 'search', 'match')):
+                            t_ = nx.test
+                            neg = False
+                            while isinstance(t_, ast.UnaryOp) and isinstance(t_.op, ast.Not):
+                                neg = not neg
+                                t_ = t_.operand
+                            if isinstance(t_, ast.Name) and t_.id == a.targets[0].id:
+                                nx.test = a.value if not neg else _loc(ast.UnaryOp(op=ast.Not(), operand=a.value), nx)
+                                del seq[i]
+                                self.changes += 1
+                                continue
+                        i += 1
+        # N19: no else arm after a body that always leaves (return / raise): `if c: ...return else: rest` -> `if c: ...return; rest`
+        for n in ast.walk(tree):
+            for field in ('body', 'orelse', 'finalbody'):
+                seq = getattr(n, field, None)
+                if not (isinstance(seq, list) and seq and isinstance(seq[0], ast.stmt)):
+                    continue
+                i = 0
+                while i < len(seq):
+                    s_ = seq[i]
+                    if isinstance(s_, ast.If) and s_.orelse and s_.body and isinstance(s_.body[-1], (ast.Return, ast.Raise)) \
+                            and not (len(s_.orelse) == 1 and isinstance(s_.orelse[0], ast.If) and False):
+                        rest = s_.orelse
+                        s_.orelse = []
+                        seq[i + 1:i + 1] = rest
+                        self.changes += 1
+                    i += 1
         # N18: `x = <expr>` immediately followed by `return x`, x read nowhere else -> `return <expr>`
         for fn in [f for f in ast.walk(tree) if isinstance(f, (ast.FunctionDef, ast.AsyncFunctionDef))]:
             names = {}
